@@ -110,7 +110,7 @@ def info_of(f):
     if ":" in kind:
         kind, cond = kind.split(":", 1)
     parts = kind.split("/")
-    grid = any(p.startswith("Grid") for p in parts) or parts[0].startswith("psG")
+    grid = any(p.startswith("Grid") for p in parts) or parts[0].startswith("psG") or bool(cond and cond.startswith("grid-"))
     certcls = "Grid_Certificate" if grid else ("H79_Certificate" if "h79" in parts[-1] else "BHRZ03_Certificate")
     if parts[0].startswith("ps") and "." in parts[0]:
         d, c, w = parts[0].split(".", 2)
